@@ -276,7 +276,7 @@ func (c07) Run(t *tape.Tape, tier Tier) *Result {
 		for _, h := range n.Hid {
 			if n.K != gen.WMark && !underMark {
 				for _, tok := range h.Tokens() {
-					if !tok.UnderMark {
+					if !tok.UnderMark && !tok.Gone {
 						hiddenTokens[n] = append(hiddenTokens[n], tok.Tok)
 					}
 				}
